@@ -120,6 +120,7 @@ type Interp struct {
 	nativeCache map[string]any
 	decodeCache map[decodeKey]decoded
 	concretizeInts bool
+	initRunning map[string]bool
 	noIfConv bool
 	ifconvs int
 	trace    bool
@@ -253,8 +254,19 @@ func (in *Interp) global(g *ssa.Global) Ptr {
 	}
 	if g.Pkg != nil {
 		path := g.Pkg.Pkg.Path()
-		if !strings.HasPrefix(path, "servitor") && !in.P.initAllow[path] && !strings.HasPrefix(g.Name(), "init$") && !strings.HasPrefix(path, "github.com/yuin/goldmark") {
-			in.unsupported("global " + g.String() + " of a package whose initialiser is not executed")
+		if !strings.HasPrefix(path, "servitor") && !in.P.initAllow[path] && !in.initRunning[path] && !strings.HasPrefix(g.Name(), "init$") && !strings.HasPrefix(path, "github.com/yuin/goldmark") {
+			// a package outside the allow-list: run its initialiser on demand if it
+			// is small (changed code may import library packages the pinned tree
+			// does not use); big table-building initialisers stay unsupported
+			if initf := g.Pkg.Func("init"); initf != nil && in.smallInit(g.Pkg) {
+				in.initRunning[path] = true
+				in.runInit(in.cur.fr, g.Pkg)
+				if p, ok := in.globals[g]; ok {
+					return p
+				}
+			} else {
+				in.unsupported("global " + g.String() + " of a package whose initialiser is not executed")
+			}
 		}
 	}
 	p := new(Value)
@@ -851,11 +863,21 @@ func (in *Interp) onRead(fr *frame, p Ptr) {
 	}
 }
 
+func (in *Interp) smallInit(pkg *ssa.Package) bool {
+	f := pkg.Func("init")
+	n := 0
+	for _, b := range f.Blocks {
+		n += len(b.Instrs)
+	}
+	// global initialisers are inlined in init; function-valued ones are calls
+	return n < 400
+}
+
 // ---- package initialisation
 
 func (in *Interp) runInit(caller *frame, pkg *ssa.Package) {
 	path := pkg.Pkg.Path()
-	if !in.P.initAllow[path] && !strings.HasPrefix(path, "servitor") {
+	if !in.P.initAllow[path] && !in.initRunning[path] && !strings.HasPrefix(path, "servitor") {
 		return
 	}
 	if path == "servitor/verifrt" {
